@@ -64,7 +64,8 @@ def gen_direct_ops(rng, spec, execute_op, view, nops):
         if view.n == 0 or r < 0.16:
             mr = None
             if spec["use_maxres"] and rng.random() < 0.8:
-                mr = rng.choice([1, 2, spec["nfid"], rng.randint(1, spec["nfid"] + 2)])
+                fids = sh.fids_of(spec)
+                mr = rng.choice([fids[0], fids[min(1, len(fids) - 1)], fids[-1], rng.choice(fids), rng.randint(1, fids[-1] + 2)])
             idx = rng.randrange(ncfg)
             if illegal and rng.random() < 0.03:
                 idx = ncfg + 1          # configuration that is not in the table
@@ -95,7 +96,7 @@ def gen_direct_ops(rng, spec, execute_op, view, nops):
             elif pick < 0.85:
                 lvl = None
             else:
-                lvl = rng.randint(1, spec["nfid"] + 1)
+                lvl = rng.choice([rng.choice(sh.fids_of(spec)), rng.randint(1, sh.fids_of(spec)[-1] + 1)])
             op = dict(kind="pause", t=t, lvl=lvl)
         elif r < 0.86 and paused:
             t = rng.choice(paused)
@@ -103,7 +104,7 @@ def gen_direct_ops(rng, spec, execute_op, view, nops):
             if rng.random() < 0.3:
                 newc = [rng.randrange(ncfg) if rng.random() < 0.3 else None, None]
                 if spec["use_maxres"]:
-                    newc[1] = rng.choice([spec["nfid"], rng.randint(1, spec["nfid"])])
+                    newc[1] = rng.choice([sh.fids_of(spec)[-1], rng.choice(sh.fids_of(spec))])
             op = dict(kind="resume", t=t, newc=newc)
         elif r < 0.92 and running:
             op = dict(kind="stop", t=rng.choice(running))
@@ -279,9 +280,12 @@ def run_tuner(spec, tp):
             sleeps.append((before, after))
             log.append(dict(kind="sleep", clock=after))
 
-    cs = {"x": m["randint"](0, spec["nx"] - 1), "y": m["randint"](0, spec["ny"] - 1)}
+    doms = {"x": m["randint"](0, spec["nx"] - 1), "y": m["randint"](0, spec["ny"] - 1)}
+    # the key order of the configuration space (and hence of the configs the searcher builds) need not be
+    # the column order of the table
+    cs = {k: doms[k] for k in (["y", "x"] if spec.get("key_order", "xy") in ("yx", "yex") else ["x", "y"])}
     if spec["use_maxres"]:
-        cs["epochs"] = spec["nfid"]
+        cs["epochs"] = sh.fids_of(spec)[-1]
     kw = dict(metric="m0", mode="min", random_seed=tp["seed"], searcher="random")
     if tp["kind"] == "fifo":
         sch = FIFOScheduler(cs, **kw)
@@ -290,7 +294,7 @@ def run_tuner(spec, tp):
         if spec["use_maxres"]:
             hk["max_resource_attr"] = "epochs"
         else:
-            hk["max_t"] = spec["nfid"]
+            hk["max_t"] = sh.fids_of(spec)[-1]
         sch = HyperbandScheduler(cs, **kw, **hk)
     tmp = tempfile.mkdtemp(prefix="c10-tuner-")
     old_env = os.environ.get("SYNETUNE_FOLDER")
@@ -437,6 +441,8 @@ def run(ctx, replay=None):
                                 if row[1][0] != row[1][0]:
                                     row[1][0] = float(1000 + f)
                 tp = gen_tuner_params(rng, spec)
+                if sh.fids_of(spec) != list(range(1, spec["nfid"] + 1)):
+                    tp["kind"] = "fifo"     # Hyperband's rung levels assume the grid 1..n
             else:
                 spec, tp = item["spec"], item["tp"]
             log, seed_calls, sleeps, err = run_tuner(spec, tp)
@@ -453,6 +459,8 @@ def run(ctx, replay=None):
         ctx.h("results_delivered", min(sum(len(op.get("results", [])) for op in log) // 10 * 10, 200))
         ctx.h("resumes", sum(1 for op in log if op["kind"] == "resume" and "err" not in op))
         ctx.h("checkpointing", spec["checkpointing"])
+        ctx.h("fidelity_grid", spec.get("fid_grid", "1..n"))
+        ctx.h("config_key_order", spec.get("key_order", "xy"))
         ctx.h("table_has_missing_cells", any(x != x for ps in spec["table"] for rows in ps for r_ in rows for x in r_[1]))
         ctx.h("hyperparameter_objectives_values_calls", sum(1 for op in log if op["kind"] == "hov") + (1 if kind == "tuner" and case["tp"].get("hov") else 0))
         if kind == "tuner":
